@@ -78,8 +78,14 @@ def run(chk):
     chk.note("project_calls", sum(1 for x in recs if x["ev"] == "project"))
 
     bad = F.validate(chk, recs, "real genpdf.flavors outputs", batch=150, threads=8)
+    wrong_reprs = {(r["kind"], tuple(map(str, r["sel"]))) for r, v in bad if r["ev"] == "reprs" and v.startswith("C46:")}
     for rec, verdict in bad:
         if verdict.startswith("DIAG:"):
+            # a family that is not orthogonal is outside the statement; it can only come from a
+            # wrong pid_to_flavor / evol_to_flavor result, which is reported on its own record
+            if rec["ev"] == "project" and (rec["kind"], tuple(rec["sel"])) in wrong_reprs:
+                chk.diag(f"{verdict} {rec['kind']} {rec['sel']} (representation already reported)")
+                continue
             raise MachineryError(f"harness generated an inadmissible record: {verdict}: {str(rec)[:400]}")
         if verdict.startswith("CONF:"):
             chk.diag(f"{verdict} {rec['ev']} {rec.get('kind')} {rec.get('sel')}")
@@ -122,4 +128,10 @@ def run(chk):
     c4 = copy.deepcopy(next(x for x in recs if x["ev"] == "reprs" and x["kind"] == "evol" and "T8" in x["sel"]))
     j = c4["sel"].index("T8")
     c4["out"][j][10] = [2, 1]
-    F.expect_rejected(chk, [c1, c2, c3, c4], "C46:", "corrupted records (must be rejected)")
+    c5 = pick(lambda x: x["kind"] == "pid" and len(x["sel"]) == 3)
+    j = next(k for k, p in enumerate(pids) if str(p) not in c5["sel"])  # a PID outside the selection
+    c5["out"][0]["data"][j][0] = [1, 1]
+    c5["out2"] = copy.deepcopy(c5["out"])
+    rej = F.expect_rejected(chk, [c1, c2, c3, c4, c5], "C46:", "corrupted records (must be rejected)")
+    if rej[5] != "C46:removes-orthogonal":
+        raise MachineryError(f"binding demonstration: leak outside the selection reported as {rej[5]}")
